@@ -172,6 +172,19 @@ func (x *Exec) execInstr(fr *Frame, st *State, ins ssa.Instruction) {
 				"update": {term: "true", typ: tBool},
 			})
 		}
+		// statement hook: on-call mapupdate:<field> for m.<field>[k] = v (k, v bound)
+		if hc := x.hookContract(fr); hc != nil && len(hc.OnCall) > 0 {
+			if u, ok := t.Map.(*ssa.UnOp); ok && u.Op == token.MUL {
+				if fa, ok := u.X.(*ssa.FieldAddr); ok {
+					if stt, ok := deref(fa.X.Type()).Underlying().(*types.Struct); ok {
+						if effs, ok := hc.OnCall["mapupdate:"+stt.Field(fa.Field).Name()]; ok {
+							mtt := mt.Underlying().(*types.Map)
+							x.applyGhostEffects(fr, st, effs, "true", map[string]specVal{"k": {term: k, typ: mtt.Key()}, "v": {term: v, typ: mtt.Elem()}})
+						}
+					}
+				}
+			}
+		}
 		hk, hs, hm := x.mapHas(st, mt)
 		vk, vs, vm := x.mapVal(st, mt)
 		lk, ls, lm := x.mapLen(st, mt)
@@ -186,8 +199,8 @@ func (x *Exec) execInstr(fr *Frame, st *State, ins ssa.Instruction) {
 	case *ssa.Select:
 		x.selectInstr(fr, st, t)
 	case *ssa.Send:
-		if fr.depth == 0 && fr.contract != nil && fr.contract.OnSend != nil {
-			if effs, ok := fr.contract.OnSend[chanVarName(t.Chan)]; ok {
+		if hc := x.hookContract(fr); hc != nil && hc.OnSend != nil {
+			if effs, ok := hc.OnSend[chanVarName(t.Chan)]; ok {
 				x.applyGhostEffects(fr, st, effs, "true", map[string]specVal{"v": {term: x.val(fr, st, t.X), typ: t.X.Type()}})
 			}
 		}
@@ -196,8 +209,8 @@ func (x *Exec) execInstr(fr *Frame, st *State, ins ssa.Instruction) {
 	case *ssa.Defer:
 		fr.defers = append(fr.defers, t)
 		st.dflags[t] = "true"
-		if fr.depth == 0 && fr.contract != nil && len(fr.contract.OnDefer) > 0 {
-			if effs, ok := fr.contract.OnDefer[dynCallName(t.Common())]; ok {
+		if hc := x.hookContract(fr); hc != nil && len(hc.OnDefer) > 0 {
+			if effs, ok := hc.OnDefer[dynCallName(t.Common())]; ok {
 				x.applyGhostEffects(fr, st, effs, "true", nil)
 			}
 		}
@@ -302,6 +315,14 @@ func (x *Exec) loadFrom(fr *Frame, st *State, addr ssa.Value) string {
 		return x.globalConst(g)
 	}
 	if fa, ok := addr.(*ssa.FieldAddr); ok {
+		// a field of an immutable captured struct variable: a projection of the captured value
+		if fv, isFV := fa.X.(*ssa.FreeVar); isFV && fr.depth == 0 && fr.fn.Parent() != nil {
+			if _, isStruct := deref(fv.Type()).Underlying().(*types.Struct); isStruct {
+				if whole := x.loadFrom(fr, st, fv); x.immCap[fv] != "" {
+					return x.vc.define("capfld", x.vc.sortOf(et), x.vc.fieldOf(deref(fv.Type()), fa.Field, whole))
+				}
+			}
+		}
 		if _, known := fr.laddr[fa.X]; !known {
 			base := x.val(fr, st, fa.X)
 			x.nilCheck(fr, st, base, fa.Pos())
@@ -866,11 +887,33 @@ func (x *Exec) applyGhostEffects(fr *Frame, st *State, effs []*EffectSpec, cond 
 }
 
 func (x *Exec) recvEffects(fr *Frame, st *State, ch ssa.Value, val string, valType types.Type, cond string) {
-	if fr.depth != 0 || fr.contract == nil || fr.contract.OnRecv == nil {
+	hc := x.hookContract(fr)
+	if hc == nil || hc.OnRecv == nil {
 		return
 	}
-	if effs, ok := fr.contract.OnRecv[chanVarName(ch)]; ok {
+	if effs, ok := hc.OnRecv[chanVarName(ch)]; ok {
 		x.applyGhostEffects(fr, st, effs, cond, map[string]specVal{"v": {term: val, typ: valType}})
+	}
+	// a channel obtained from a call, e.g. <-ctx.Done(): hook name call:<callee>, recv = the
+	// receiver (or first argument) of that call
+	if c, isCall := ch.(*ssa.Call); isCall {
+		name := ""
+		var rv ssa.Value
+		if c.Call.IsInvoke() {
+			name, rv = c.Call.Method.Name(), c.Call.Value
+		} else if f := c.Call.StaticCallee(); f != nil {
+			name = f.Name()
+			if len(c.Call.Args) > 0 {
+				rv = c.Call.Args[0]
+			}
+		}
+		if effs, ok := hc.OnRecv["call:"+name]; ok && name != "" {
+			bind := map[string]specVal{"v": {term: val, typ: valType}}
+			if rv != nil {
+				bind["recv"] = specVal{term: x.val(fr, st, rv), typ: rv.Type()}
+			}
+			x.applyGhostEffects(fr, st, effs, cond, bind)
+		}
 	}
 }
 
@@ -878,8 +921,8 @@ func (x *Exec) goStmt(fr *Frame, st *State, t *ssa.Go) {
 	x.vc.note("go statements: the spawned body is not interleaved; memory it may write is havocked at the spawn point")
 	keys := x.p.effects.callEffects(fr.fn, t)
 	x.havocKeys(st, keys)
-	if fr.depth == 0 && fr.contract != nil && len(fr.contract.OnGo) > 0 {
-		x.applyGhostEffects(fr, st, fr.contract.OnGo, "true", nil)
+	if hc := x.hookContract(fr); hc != nil && len(hc.OnGo) > 0 {
+		x.applyGhostEffects(fr, st, hc.OnGo, "true", nil)
 	}
 }
 
